@@ -308,6 +308,10 @@ def check(prog, ctx):
              'or static members, no user-declared copy/move operations on the interpolation classes', 6)
     ctx.rule('C09.e', 'Set_Prefactor/Multiply change all outputs by exactly the stated factor: every value returned by Interpolate and '
              'Derivative (all orders) is of degree exactly one in the prefactor (a delegated Interpolate(x) counts as degree one)', 2)
+    ctx.rule('C09.f', 'precondition of the cached search: a search helper that starts from the cached index reads the table next to that index before '
+             'any clamp applies; for every argument Locate hands to it (decided from the path conditions at the call site, evaluated on a concrete '
+             'table X[k]=k, k<6, domain [0,5], arguments below/inside/above the domain and in the 1% zones) and every cached index 0..N-2, all table '
+             'subscripts evaluated before the first loop iteration lie in 0..N-1', 1)
     ctx.sub('prefactor_degree', prefactor_degree, prog, ctx)
     loc = prog.fn(CLS + '::Locate')
     cache = sorted(field_writes(loc))
@@ -380,6 +384,7 @@ def check(prog, ctx):
                'helper objects %s are used only through Locate' % helper_fields, 'helper objects used otherwise: %s' % bad2)
 
     ctx.sub('search_rules', search_rules, prog, ctx, loc, closure)
+    ctx.sub('entry_reads', entry_reads, prog, ctx, loc, closure, cache)
 
     # ---- C09.d nothing else is state
     for cq in (CLS, CLS2):
@@ -471,6 +476,132 @@ def check(prog, ctx):
             else:
                 ctx.undecided('C09.d', inst, sorted(fillers, key=lambda f: f.line)[0],
                               'query members keep state %s; its invalidation protocol is outside the understood fragment' % sorted(cache_like))
+
+
+def entry_reads(prog, ctx, loc, closure, cache):
+    R = 'C09.f'
+    NT = 6
+    AU = sp.core.function.AppliedUndef
+    xname = loc.params[0]['name']
+
+    def concretise(t, xv, xn, extra):
+        """term on the concrete table; returns (value or residual term, [table indices read])"""
+        if not isinstance(t, sp.Basic):
+            return t, []
+        reads = []
+        for _ in range(8):
+            sub = {}
+            for sy in t.free_symbols:
+                if sy.name == xn:
+                    sub[sy] = xv
+                elif sy.name == 'this.N':
+                    sub[sy] = sp.Integer(NT)
+                elif sy.name in extra:
+                    sub[sy] = extra[sy.name]
+            if sub:
+                t = t.xreplace(sub)
+            rep = {}
+            for a_ in t.atoms(AU):
+                n_ = a_.func.__name__
+                if n_ == 'this.x_values' and len(a_.args) == 1 and a_.args[0].is_number:
+                    reads.append(a_.args[0])
+                    rep[a_] = a_.args[0]
+                elif n_ == 'this.domain' and len(a_.args) == 1 and a_.args[0].is_number:
+                    rep[a_] = sp.Integer(0) if a_.args[0] == 0 else sp.Integer(NT - 1)
+            if not rep:
+                break
+            t = t.xreplace(rep)
+        try:
+            t = sp.simplify(t)
+        except Exception:
+            pass
+        return t, reads
+
+    def staged(c, xv, xn, extra):
+        """evaluate a condition the way the code does: in a conjunction/disjunction the operands without table reads decide first"""
+        if isinstance(c, (sp.And, sp.Or)):
+            plain = [a_ for a_ in c.args if not any(f_.func.__name__ == 'this.x_values' for f_ in a_.atoms(AU))]
+            stop = S.false if isinstance(c, sp.And) else S.true
+            for a_ in plain:
+                v_, _ = concretise(a_, xv, xn, extra)
+                if v_ == stop:
+                    return stop, []
+        return concretise(c, xv, xn, extra)
+
+    placements = [sp.Rational(-1), sp.Rational(-1, 200), sp.Integer(0), sp.Rational(1, 2), sp.Integer(2), sp.Integer(NT - 1),
+                  sp.Integer(NT - 1) + sp.Rational(1, 200), sp.Integer(NT + 1)]
+    helpers = [f for q in sorted(closure) for f in prog.fns(q) if set(field_reads(f)) & set(cache)]
+    if not helpers:
+        ctx.undecided(R, 'cached-search', loc, 'no search helper reads the cache fields %s' % cache)
+        return
+    sxl = Symx(prog, loc)
+    for h in helpers:
+        inst = '%s:entry-reads' % h.name
+        # arguments admitted to h by Locate
+        sites = [s_ for s_ in walk_stmts(loc.body) if s_['k'] in ('Decl', 'Expr', 'Return') and
+                 any(n_.get('k') == 'Call' and (n_.get('callee') or {}).get('q') == h.q for e_ in stmt_exprs(s_) for n_ in walk_expr(e_))]
+        if not sites:
+            ctx.undecided(R, inst, h, 'call site in Locate not found')
+            continue
+        admitted, unknown = [], []
+        for xv in placements:
+            for s_ in sites:
+                for st_ in sxl.states_at(loc, s_):
+                    vals = [concretise(c_, xv, xname, {})[0] for c_ in st_.conds]
+                    if all(v_ == S.true for v_ in vals):
+                        admitted.append(xv)
+                    elif not any(v_ == S.false for v_ in vals):
+                        unknown.append((xv, [str(v_)[:80] for v_ in vals if v_ not in (S.true, S.false)]))
+        if unknown:
+            ctx.undecided(R, inst, h, 'path condition at the call site does not evaluate on the concrete table: %s' % unknown[:2])
+            continue
+        admitted = sorted(set(admitted))
+        # reads of the table in h before the first loop iteration
+        sxh = Symx(prog, h)
+        hx = h.params[0]['name']
+        loops = []
+
+        def outer_loops(s_, inloop):
+            if s_['k'] in ('For', 'While', 'DoWhile'):
+                if not inloop:
+                    loops.append(s_)
+                inloop = True
+            from ..ir import stmt_children
+            for c_ in stmt_children(s_):
+                outer_loops(c_, inloop)
+        outer_loops(h.body, False)
+        stages = []       # (path conditions in order, last = loop condition at its first evaluation)
+        for lp in loops:
+            if lp['k'] != 'While':
+                raise Undecided('search loop of kind %s' % lp['k'])
+            for st_ in sxh.states_at(h, lp):
+                stages.append((list(st_.conds), sxh.as_bool(sxh.sym(lp['cond'], st_)), lp['l']))
+        if not stages:
+            ctx.undecided(R, inst, h, 'no search loop found')
+            continue
+        cache_syms = ['this.' + c_ for c_ in cache]
+        bad, ncase = [], 0
+        for xv in admitted:
+            for jl in range(NT - 1):
+                extra = {n_: sp.Integer(jl) for n_ in cache_syms}
+                for conds, lc, ln in stages:
+                    ncase += 1
+                    taken = True
+                    for c_ in conds + [lc]:
+                        v_, reads = staged(c_, xv, hx, extra)
+                        oob = [r_ for r_ in reads if not (r_.is_integer and 0 <= r_ <= NT - 1)]
+                        if oob:
+                            bad.append({'x': str(xv), 'cached index': jl, 'subscript': str(oob[0]), 'line': ln})
+                            break
+                        if v_ == S.false:
+                            break
+                        if v_ != S.true and c_ is not lc:
+                            raise Undecided('condition %s does not evaluate on the concrete table' % str(v_)[:100])
+        ctx.decide(R, inst, h, not bad, 'arguments admitted by Locate %s: all table reads of %s before its first loop iteration are in range (%d cases)'
+                   % ([str(v_) for v_ in admitted], h.name, ncase),
+                   '%s reads the table out of range before any clamp applies: with the table X[k]=k (k<%d) Locate admits x=%s; with cached index %s the subscript is %s'
+                   % (h.name, NT, bad[0]['x'] if bad else '', bad[0]['cached index'] if bad else '', bad[0]['subscript'] if bad else ''),
+                   witness={'cases': bad[:4]} if bad else None)
 
 
 def locate_and_helpers(prog):
